@@ -1558,10 +1558,20 @@ def merge_typesystems(*typesystems: TypeSystem) -> TypeSystem:
                 # If the supertypes are not the same, we need to check whether they are at
                 # least compatible and then patch the hierarchy
                 if t.supertype.name != existing_type.supertype.name:
-                    if merged_ts.subsumes(existing_type.supertype.name, t.supertype.name):
+                    if merged_ts.subsumes(existing_type.name, t.supertype.name):
+                        msg = "Cannot merge type [{}] with super type [{}] which is one of its own subtypes".format(
+                            t.name, t.supertype.name
+                        )
+                        raise ValueError(msg)
+                    elif merged_ts.subsumes(existing_type.supertype.name, t.supertype.name):
                         # Existing supertype subsumes newly specified supertype;
                         # reset supertype to the new, more specific type
-                        existing_type.supertype = t.supertype
+                        new_supertype = merged_ts.get_type(t.supertype.name)
+                        del existing_type.supertype._children[existing_type.name]
+                        existing_type.supertype = new_supertype
+                        new_supertype._children[existing_type.name] = existing_type
+                        for feature in new_supertype.all_features:
+                            existing_type._add_feature(feature, inherited=True, warn=False)
                     elif merged_ts.subsumes(t.supertype.name, existing_type.supertype.name):
                         # Newly specified supertype subsumes old type, this is OK and we don't
                         # need to do anything
@@ -1580,12 +1590,14 @@ def merge_typesystems(*typesystems: TypeSystem) -> TypeSystem:
             updated_type_list.remove(t)
 
         # If there was no progress in the last iteration, then the leftover types cannot be merged
-        if len(type_list) == updated_type_list:
+        if len(type_list) == len(updated_type_list):
             raise ValueError("Unmergeable types" + ", ".join([t.name for t in type_list]))
 
         # If there are no types to merge left, then we are done
         if len(updated_type_list) == 0:
             break
+
+        type_list = updated_type_list
 
     # Fix up type references to ensure that only type instances of the merged type system are referenced, not any
     # types from the source type systems
